@@ -311,7 +311,7 @@ class UIntView final {
 
   template <class Stream>
   void WriteToTextStream(Stream *stream,
-                         ::emboss::TextOutputOptions &options) const {
+                         const ::emboss::TextOutputOptions &options) const {
     support::WriteIntegerViewToTextStream(this, stream, options);
   }
 
@@ -477,7 +477,7 @@ class IntView final {
 
   template <class Stream>
   void WriteToTextStream(Stream *stream,
-                         ::emboss::TextOutputOptions &options) const {
+                         const ::emboss::TextOutputOptions &options) const {
     support::WriteIntegerViewToTextStream(this, stream, options);
   }
 
@@ -694,7 +694,7 @@ class BcdView final {
 
   template <class Stream>
   void WriteToTextStream(Stream *stream,
-                         ::emboss::TextOutputOptions &options) const {
+                         const ::emboss::TextOutputOptions &options) const {
     // TODO(bolms): This shares the numeric_base() option with IntView and
     // UIntView (and EnumView, for unknown enum values).  It seems like an end
     // user might prefer to see BCD values in decimal, even if they want to see
@@ -845,7 +845,7 @@ class FloatView final {
 
   template <class Stream>
   void WriteToTextStream(Stream *stream,
-                         ::emboss::TextOutputOptions &options) const {
+                         const ::emboss::TextOutputOptions &options) const {
     support::WriteFloatToTextStream(Read(), stream, options);
   }
 
